@@ -64,6 +64,9 @@ func loaderSequence(act []*sdl.Source) (seq []*sdl.Source, ambiguous [][2]string
 	var pr, or, un []*sdl.Source
 	for _, s := range act {
 		c, _ := orderClassOf(s)
+		if c == "marker" {
+			c = ""
+		}
 		switch c {
 		case "priority":
 			pr = append(pr, s)
